@@ -216,6 +216,31 @@ def run(chk):
         return True, "", sites
     chk.ob("C19.R2:attribute-table", "each #[emit::as_*] attribute expands to the capture hooks of its own mode (inspecting and anonymous flavour)", hook_table)
 
+    def typed_out_of_value():
+        """Typed conversions out of Value (numbers, bool, &str, String, Cow<str>) are the bag's own TryInto - the conversion that knows every
+        carrier (captured, serde/sval-backed, owned, shared) - and all sibling impls agree."""
+        n = 0
+        for b in P.find(trait="emit_core::value::FromValue", method="from_value"):
+            if b.is_closure or b.crate != "emit_core" or not b.file.endswith("value.rs"):
+                continue
+            st = b.self_ty or ""
+            if st.startswith("emit_core::value::Value") or "dyn core::error::Error" in st:
+                continue
+            n += 1
+            names = [c.callee.get("name") for c in b.calls(normal_only=True)]
+            if names != ["try_into", "ok"]:
+                return False, ("`impl FromValue for %s` converts through %s instead of the wrapped bag's try_into(): carriers other than a plain "
+                               "borrowed value (serde/sval-captured strings, owned or shared copies) would no longer convert, so pull::<%s>() "
+                               "disagrees with what every other consumer sees" % (st, names, st.split("::")[-1])), [], b.span
+            c = b.calls(normal_only=True)[0]
+            root, fp = mir.o_field_path(b.origin(c.args[0]))
+            if fp != ["0"] or root is None or not mir.o_is_param(root, idx=1):
+                return False, "`impl FromValue for %s` does not convert the value it was given" % st, [], c.loc
+        if n < 17:
+            raise mir.AnchorMissing("primitive/text FromValue impls in emit_core::value (found %d)" % n)
+        return True, "", ["%d sibling impls, all value.0.try_into().ok()" % n]
+    chk.ob("C19.R5:typed-out-of-Value", "every typed conversion out of a Value is the bag's own TryInto; the sibling impls agree", typed_out_of_value)
+
     def macro_props_skip_none():
         b = P.impl_method("emit_core::props::Props", "emit::macro_hooks::__PrivateMacroProps<'a, N>", "for_each")
         # the decision on an entry's value being None must lead back into the loop, not out of it
